@@ -4,4 +4,4 @@ set -e
 cd "$(dirname "$0")"
 coqc -Q ../coq Redact ../coq/Extract.v
 rm -f ../coq/Extract.vo ../coq/Extract.glob ../coq/.Extract.aux ../coq/Extract.vos ../coq/Extract.vok
-ocamlfind ocamlopt -O2 -w -a model.mli model.ml sexp.ml conv.ml common.ml h_low.ml h_buffer.ml h_printer.ml driver.ml -o driver
+ocamlfind ocamlopt -O2 -w -a model.mli model.ml sexp.ml conv.ml common.ml h_low.ml h_buffer.ml h_printer.ml h_q.ml driver.ml -o driver
